@@ -71,7 +71,7 @@ def obligations(tier):
            bounds="synthetic class, partition embedded-kind %d / tags-kind %d: presence/None/[] per property, unbounded int, str <= 2, custom property, "
                   "embedded object with/without custom, fixed value, allow_custom" % (q // 4, q % 4)) for q in range(16)
     ] + [
-        CH("tlp_instances", H, "tlp", t, mode="E1s", functions=FC[13:], bounds="5 colours x 5 ids x 2 created values x 2 versions"),
+        CH("tlp_instances", H, "tlp", t, mode="E1s", functions=FC[13:], bounds="10 colour spellings (4 terms, unknown, case/space variants, empty) x 5 ids x 2 created values x 2 versions"),
         JOB("slot_model", "props.j_tables", "job_slot_model", 300, engine="smt", functions=["stix2.properties.Property.__init__"], stubs=[MODEL],
             bounds="every slot of every registered class and embedded type of both versions (live tables vs frozen model)"),
         JOB("regex_type_names", "props.j_regex", "job_type_names", 120, engine="re2z3", functions=FP[18:], bounds="all strings 3..250 chars"),
@@ -79,6 +79,15 @@ def obligations(tier):
         JOB("regex_hashes", "props.j_regex", "job_hashes", 300, engine="re2z3", functions=["stix2.hashes.check_hash"], bounds="all strings, 15 algorithms"),
         JOB("regex_selector", "props.j_regex", "job_selector", 120, engine="re2z3", functions=FP[14:15], bounds="all strings"),
         JOB("strict_id_language", "props.j_ids", "job_id_language", 300, engine="re2z3", functions=FP[16:18], bounds="all strings, both versions"),
+    ]
+    H4 = "props.h_C04"
+    F4 = ["stix2.properties." + n + ".clean" for n in ("ListProperty", "EmbeddedObjectProperty", "ExtensionsProperty", "HashesProperty")]
+    obls += [     # nested custom content is refused in strict mode (harnesses shared with C04; they also assert the flag)
+        CH("strict_refuses_custom_in_lists", H4, "prop_list", t, functions=F4[:1], stubs=[FMT], bounds="1..3 children with symbolic custom flags, symbolic allow_custom"),
+        CH("strict_refuses_custom_embedded", H4, "prop_embedded", t, functions=F4[1:2], stubs=[FMT], bounds="instance with symbolic flag, or dict with/without a custom property"),
+        CH("strict_refuses_custom_in_extensions", H4, "prop_extensions", t * 2, functions=F4[2:3], stubs=[FMT],
+           bounds="two registered extensions each clean/custom and each given as dict or ready-made instance, unregistered extension, extension-definition; both orders"),
+        CH("strict_refuses_custom_hash_names", H4, "prop_hashes", t, mode="E1s", functions=F4[3:], bounds="12 algorithm names, singles and pairs"),
     ]
     for p in range(8):
         obls.append(CH("corruption_then_valid_p%d" % p, H, "corrupt_then_valid", t * 2, mode="E1s", functions=FE[:2] + ["stix2.parsing.parse"], stubs=[MODEL],
